@@ -53,6 +53,18 @@ func (c *ClientConn) VerifAddrs() (local, remote string) {
 	return "", ""
 }
 
+// VerifForgetConns drops the remembered addresses of the connections for which match returns true (a test bed that is
+// torn down calls it, so that its connections - and everything they reference - can be collected).
+func VerifForgetConns(match func(local, remote string) bool) {
+	verifConnAddrs.Range(func(k, v interface{}) bool {
+		a := v.([2]string)
+		if match(a[0], a[1]) {
+			verifConnAddrs.Delete(k)
+		}
+		return true
+	})
+}
+
 // VerifEndpoint returns the endpoint key of the pool.
 func (p *connPool) VerifEndpoint() string {
 	return p.config.Endpoint.Key()
